@@ -236,6 +236,10 @@ def parse_script(lines):
             ops.append(dict(op="send", c=int(p[1]), eof=p[2] == "1", b=unhx(p[3])))
         elif p[0] == "des":
             ops.append(dict(op="des", pw=unhx(p[1]), blk=unhx(p[2])))
+        elif p[0] == "udpon" and len(p) == 2:
+            ops.append(dict(op="udpon", s=int(p[1])))
+        elif p[0] == "udp" and len(p) == 3:
+            ops.append(dict(op="udp", s=int(p[1]), b=unhx(p[2])))
         elif p[0] == "tight" and len(p) == 2:
             ops.append(dict(op="tight", on=p[1] == "1"))
         elif p[0] == "types" and len(p) == 5:
@@ -302,6 +306,7 @@ def oracle_case(lines, impl_lines):
     screens, conns = [], []          # conns: dict(s, rev, sent=[(opidx, bytes)], obs=[(opidx, conn-obs)])
     ext_reg_times = {}               # k -> list of (opidx, registered?)
     EXT_TYPES = dict(DEFAULT_EXT_TYPES)   # security types of the application handler objects of this case
+    n_in_prev, udp_on = 0, set()
     tight_mode = any(o["op"] == "tight" and o["on"] for o in ops)   # object 2 = the library's TightVNC handler
     it = iter(impl_lines)
     crashed_at = None
@@ -328,6 +333,23 @@ def oracle_case(lines, impl_lines):
             findings.append(Finding("bad-observation", None, "unexpected harness output %r for %r" % (line, o)))
             continue
         flags, cobs = parse_obs(line)
+        n_in = int(flags.get("in", 0))
+        if n_in > n_in_prev:
+            # an input event was handed to the application through the UDP channel: nobody can have
+            # proved a password on it, so the screen must not require one
+            if o["op"] == "udp" and o["s"] < len(screens) and screens[o["s"]]["mode"] != "none":
+                findings.append(Finding("udp-input-without-password", None,
+                                        "a %d-byte datagram (type %d) from an unauthenticated peer reached kbdAddEvent/ptrAddEvent "
+                                        "of password-protected screen %d" % (len(o["b"]), o["b"][0] if o["b"] else -1, o["s"]),
+                                        kind="udp-input", msgtype=o["b"][0] if o["b"] else -1))
+            elif o["op"] != "udp":
+                findings.append(Finding("input-from-nowhere", None, "input event count rose on op %r" % o["op"]))
+        elif o["op"] == "udp" and o["s"] < len(screens) and screens[o["s"]]["mode"] == "none" and o["s"] in udp_on and \
+                ((len(o["b"]) == 8 and o["b"][0] == 4) or (len(o["b"]) == 6 and o["b"][0] == 5)):
+            findings.append(Finding("udp-input-lost", None, "well-formed datagram on an open screen was not delivered"))
+        n_in_prev = n_in
+        if o["op"] == "udpon":
+            udp_on.add(o["s"])
         if o["op"] == "screen":
             o["scr"]["timeline"] = [(idx, o["scr"].get("content"))]
             screens.append(o["scr"])
@@ -1140,6 +1162,36 @@ def gen_tight(rng, k, weak_pool):
     return L
 
 
+def gen_udp(rng, k, weak_pool):
+    """screens with the UDP input port open (screen->udpPort): datagrams from a peer that never spoke RFB,
+    on protected and open screens, interleaved with ordinary handshakes"""
+    pl = Planner(rng, k, "udp")
+    sp = pick_pw_screen(pl, rng, weak_pool)
+    so = pl.screen("none")
+    for s in rng.sample([sp, so], rng.choice([1, 2, 2])):
+        pl.lines.append("udpon %d" % s)
+    key = lambda: bytes([4, rng.randrange(2), 0, 0]) + rng.randrange(1 << 16).to_bytes(4, "big")
+    ptr = lambda: bytes([5, rng.randrange(8)]) + rng.randrange(1 << 16).to_bytes(2, "big") + rng.randrange(1 << 16).to_bytes(2, "big")
+    ci = None
+    for _ in range(rng.randint(2, 7)):
+        r = rng.random()
+        s = rng.choice([sp, sp, so])
+        if r < 0.35:
+            pl.lines.append("udp %d %s" % (s, hx(key())))
+        elif r < 0.6:
+            pl.lines.append("udp %d %s" % (s, hx(ptr())))
+        elif r < 0.75:
+            bad = rng.choice([key()[:rng.randint(1, 7)], ptr() + b"x", bytes([rng.choice([0, 2, 3, 6, 255])]) + bytes(7), key() + b"yy"])
+            pl.lines.append("udp %d %s" % (s, hx(bad)))
+        elif ci is None:
+            ci = pl.conn(sp, False, b"RFB 003.008\n")
+        elif pl.conns[ci]["st"] == "sec":
+            pl.send(ci, b"\2")
+        elif pl.conns[ci]["st"] == "auth":
+            pl.send(ci, pl.response(ci, rng.choice(["correct", "random"])))
+    return pl.lines
+
+
 def gen_des(rng, k, weak_pool):
     L = ["case %d des" % k]
     for _ in range(6):
@@ -1218,6 +1270,8 @@ def gen_cases(ctx):
         cases.append(gen_filechange(rng, len(cases), weak_pool))
     for _ in range(200 * scale):
         cases.append(gen_tight(rng, len(cases), weak_pool))
+    for _ in range(120 * scale):
+        cases.append(gen_udp(rng, len(cases), weak_pool))
     cases += gen_fvo_sweep(rng, len(cases))
     cases = [c for c in cases if script_ok(c)]
     for i, c in enumerate(cases):
@@ -1261,7 +1315,7 @@ def run_impl(ctx, cases, cexe):
     return vlib.run_driver([cexe, ctx.scratch], script, timeout=3000)
 
 
-VARIANT = {"single": "0"}      # which rfbUnregisterSecurityHandler the library has (probe_variant)
+VARIANT = {"single": "0", "udp": "0"}      # which rfbUnregisterSecurityHandler the library has (probe_variant)
 
 PROBE = ["case 0 probe", "screen 1 1 70 none", "reg 2", "reg 3", "unreg 3", "conn 0 0 0 " + b"RFB 003.008\n".hex()]
 
@@ -1282,12 +1336,20 @@ def probe_variant(ctx, cexe):
     except Exception:
         pass
     VARIANT["single"] = single
+    # UDP input on a password-protected screen: delivered (HEAD) or dropped (notes/fix_C05_4.diff)?
+    rc, co, ce = run_impl(ctx, [["case 0 probe-udp", "screen 1 1 70 list 1 70", "udpon 0", "udp 0 0401000000000061"]], cexe)
+    cs = vlib.split_cases(co)
+    try:
+        flags, _ = parse_obs(cs[0][1][-1])
+        VARIANT["udp"] = "0" if int(flags.get("in", 0)) > 0 else "1"
+    except Exception:
+        VARIANT["udp"] = "0"
     return single
 
 
 def run_model(ctx, cases, mexe, legacy=False):
     script = "\n".join("\n".join(c) for c in cases) + "\n"
-    exe = [mexe, "1", "1", "0"] if legacy else [mexe, "0", "0", VARIANT["single"]]
+    exe = [mexe, "1", "1", "0", "0"] if legacy else [mexe, "0", "0", VARIANT["single"], VARIANT["udp"]]
     return vlib.run_driver(exe, script, timeout=3000, unlimited_stack=True)
 
 
@@ -1386,7 +1448,9 @@ def check(ctx):
         input_distribution=hist, cases=len(cases), correspondence_mismatches=len(mismatches),
         oracle_failing_cases=len(failing), not_compared_unmodelled=unmodelled, exhaustive=False,
         list_handling_variant=("notes/fix_C05_3.diff semantics (cfg_unreg_single = true)" if single == "1" else
-                               "recursion on ->next as of 39c3ee3 (cfg_unreg_single = false)"))
+                               "recursion on ->next as of 39c3ee3 (cfg_unreg_single = false)"),
+        udp_variant=("UDP input dropped on protected screens (notes/fix_C05_4.diff, cfg_udp_gated = true)" if VARIANT["udp"] == "1"
+                     else "UDP input ungated as of /repo HEAD (cfg_udp_gated = false)"))
     ctx.assumptions += [
         "external: libgcrypt DES = FIPS 46 DES (cross-checked by the 'des' ops and by every authentication of the run)",
         "first bytes of a connection are empty or start with 'RFB ' (otherwise rfbNewClient takes the WebSocket/TLS path, not modelled)",
